@@ -948,7 +948,7 @@ def history_phase(ctx, all_cases):
 
 
 def run(ctx):
-    built = ctx.build(extra_targets=["theories/Model/EvaluateRun.v"])
+    built = ctx.build(extra_targets=["theories/Model/EvaluateRun.v", "theories/Properties/Valid.v"])
     from metapype.model import metapype_io
     from metapype.eml import rule as R
     global KNOWN_ELEMENTS
